@@ -36,7 +36,14 @@ def unit(pid, battery_name, args, prefix=(), max_depth=None):
     harness.set_width_for(n + args.get('pad', 0), m + args.get('pad', 0))
     harness.set_kernel_mode(mode)
     concepts = harness.load_concepts()
-    battery = getattr(B, battery_name)
+    _battery = getattr(B, battery_name)
+    import inspect as _inspect
+    _has_light = 'light' in _inspect.signature(_battery).parameters
+
+    def battery(c, o, light=False):
+        # heavy batteries run in full once per path (on the symbolically built context) and in their light form on
+        # the other passes
+        return _battery(c, o, light=True) if (light and _has_light) else _battery(c, o)
     fixed = args.get('fixed')        # optional concrete skeleton: list of rows with None for symbolic cells
     if fixed is None:
         cells = harness.cell_vars(n, m)
@@ -65,11 +72,13 @@ def unit(pid, battery_name, args, prefix=(), max_depth=None):
             orc = B.Oracle(objs, props, table)
             # other live, used contexts (same labels / other labels) must not disturb this one
             late = concepts.Context(objs, props, [tuple(r) for r in table])   # created before, used after the decoys
-            keep = B.decoys(concepts, objs, props, table, battery if n * m <= 16 else None)   # noqa: F841
+            keep = B.decoys(concepts, objs, props, table, (lambda c, o: battery(c, o, light=True)) if n * m <= 16 else None)   # noqa: F841
             fails = [f'(context created before, used after other contexts over the same labels) {f}'
-                     for f in battery(late, orc)]
+                     for f in battery(late, orc, light=True)]
             fails += battery(ctx, orc)
-            out['queries'] += 2
+            # state carried between calls: everything again on the same objects
+            fails += [f'(second pass over the same objects) {f}' for f in battery(ctx, orc, light=True)]
+            out['queries'] += 3
             if fails:
                 what = '; '.join(fails[:3])
         except core.Inconclusive as e:
